@@ -55,13 +55,14 @@ Definition is_alpha (c : ascii) : bool :=
 Definition is_name_line (l : str) : bool :=
   match l with c :: _ => Ascii.eqb c "*"%char || is_alpha c | [] => false end.
 (* re.search(r'E\+?-?\d+', line) *)
+Definition skip_char (ch : ascii) (s : str) : str :=
+  match s with c :: s' => if Ascii.eqb c ch then s' else s | [] => s end.
 Definition exp_at (s : str) : bool :=
   match s with
-  | "E"%char :: r =>
-      let r1 := match r with "+"%char :: r' => r' | _ => r end in
-      let r2 := match r1 with "-"%char :: r' => r' | _ => r1 end in
-      match r2 with d :: _ => digitb d | [] => false end
-  | _ => false
+  | c :: r =>
+      Ascii.eqb c "E"%char
+      && match skip_char "-"%char (skip_char "+"%char r) with d :: _ => digitb d | [] => false end
+  | [] => false
   end.
 Fixpoint has_exp (s : str) : bool :=
   exp_at s || match s with [] => false | _ :: s' => has_exp s' end.
@@ -153,9 +154,7 @@ Section RES.
      spans: leading non-name lines, first cluster, following non-name lines; the
      second cluster (if any) starts right after.  From there femio walks back
      to the last line holding an E+dd token. *)
-  Definition split_series (lines : list str) : result (list str * option (list str)) :=
-    let content_start := if existsb (contains (S "TOTALTIME")) lines then 11 else 3 in
-    let body := skipn content_start lines in
+  Definition split_body (body : list str) : result (list str * option (list str)) :=
     let not_name := fun l => negb (is_name_line l) in
     let pre1 := take_while not_name body in
     let r1 := drop_while not_name body in
@@ -176,6 +175,9 @@ Section RES.
               Ok (firstn start body, Some (skipn start body))
         end
     end.
+  Definition split_series (lines : list str) : result (list str * option (list str)) :=
+    let content_start := if existsb (contains (S "TOTALTIME")) lines then 11 else 3 in
+    split_body (skipn content_start lines).
 
   (* to_fem_attribute(name, 0, range(lo, hi), delimiter=' ') on one re-joined row *)
   Definition parse_cols (lo hi : nat) (toks : list str) : result (row V) :=
